@@ -86,6 +86,75 @@ type LibPort int
 
 func (p *LibPort) InitDefaults() { *p = 9200 }
 
+// Named primitives, a named list and a named array type with other kinds of
+// InitDefaults: conditional (the usual idiom) and doing nothing at all. Applied
+// to the value a field holds they leave a pre-filled value alone.
+type LibCondPort int
+
+func (p *LibCondPort) InitDefaults() {
+	if *p == 0 {
+		*p = 9200
+	}
+}
+
+type LibNoopInt int
+
+func (*LibNoopInt) InitDefaults() {}
+
+type LibNoopStr string
+
+func (*LibNoopStr) InitDefaults() {}
+
+type LibList []int
+
+func (*LibList) InitDefaults() {}
+
+type LibArr [2]int
+
+func (*LibArr) InitDefaults() {}
+
+// LibIniter: an interface type that lists InitDefaults (the type of fields no
+// configuration of this package mentions; they hold nil or a *LibConn).
+type LibIniter interface{ InitDefaults() }
+
+// LibRing refers to its own type: pre-filled values may contain themselves.
+// No configuration mentions next.
+type LibRing struct {
+	V    int      `config:"v"`
+	W    string   `config:"w"`
+	Next *LibRing `config:"next"`
+}
+
+func newLibRing(r *rand.Rand) LibRing {
+	n := &LibRing{}
+	if maybe(r) {
+		n.V = 1 + r.Intn(99)
+	}
+	if maybe(r) {
+		n.W = word(r)
+	}
+	switch r.Intn(4) {
+	case 0: // nil
+	case 1: // a chain
+		n.Next = &LibRing{V: 1 + r.Intn(99)}
+	case 2: // refers to itself
+		n.Next = n
+	case 3: // a ring of two
+		n.Next = &LibRing{V: 1 + r.Intn(99), Next: n}
+	}
+	return *n // the copy refers into the ring
+}
+
+var (
+	tLibCondPort = reflect.TypeOf(LibCondPort(0))
+	tLibNoopInt  = reflect.TypeOf(LibNoopInt(0))
+	tLibNoopStr  = reflect.TypeOf(LibNoopStr(""))
+	tLibList     = reflect.TypeOf(LibList(nil))
+	tLibArr      = reflect.TypeOf(LibArr{})
+	tLibIniter   = reflect.TypeOf((*LibIniter)(nil)).Elem()
+	tLibRing     = reflect.TypeOf(LibRing{})
+)
+
 // LibTop: a hand-written top-level target.
 type LibTop struct {
 	Title   string            `config:"title" validate:"nonzero" c13:"str:forbidden:method"`
@@ -333,7 +402,9 @@ var (
 	tLibTop    = reflect.TypeOf(LibTop{})
 )
 
-var libStructs = []reflect.Type{tLibConn, tLibLimits, tLibPlain, tLibSelf, tLibSelfV, tLibSelfAny}
+var libStructs = []reflect.Type{tLibConn, tLibLimits, tLibPlain, tLibSelf, tLibSelfV, tLibSelfAny, tLibRing}
+
+var namedPrims = []reflect.Type{tLibPort, tLibPort, tLibCondPort, tLibNoopInt, tLibNoopStr}
 
 var words = []string{"alpha", "beta gamma", "x1", "é-ü", "/usr/local", "10.0.0.1:9200", "q#r", "Zed", "日本", "a_b", "true", "123", " lead", "0x1F"}
 
@@ -474,6 +545,8 @@ func libCtor(t reflect.Type) func(*rand.Rand) reflect.Value {
 		return func(r *rand.Rand) reflect.Value { return reflect.ValueOf(newLibPlain(r)) }
 	case tLibTop:
 		return func(r *rand.Rand) reflect.Value { return reflect.ValueOf(newLibTop(r)) }
+	case tLibRing:
+		return func(r *rand.Rand) reflect.Value { return reflect.ValueOf(newLibRing(r)) }
 	case tLibSelf:
 		return func(r *rand.Rand) reflect.Value { return reflect.ValueOf(newLibSelf(r)) }
 	case tLibSelfV:
